@@ -1,47 +1,27 @@
 (* C02_proofs.v — a document violating any rule other than field merging is rejected by the
-   default rule plan (composition of the per-rule equivalences, see ComposeFacts.v).
+   default rule plan: composition of the per-rule equivalences (ComposeFacts.v) with
+   variables_in_allowed_position_iff (C07_position_proofs.v) and no_fuel_exhaustion (C03_proofs.v).
 
-   Status of the ingredients: as in C01_proofs.v.  When C07_position_proofs.v is available, the
-   closed lemmas expected by properties/C02.v are
-       From GTP Require Import C07_position_proofs.
-       Definition violation_rejected := violation_rejected_from_viap variables_in_allowed_position_iff.
-       Definition violation_rejected_errors := violation_rejected_errors_from_viap variables_in_allowed_position_iff. *)
+   CHANGED HYPOTHESIS.  The equivalence for VariablesInAllowedPosition is available only for
+   documents whose variable default values are constants ([defaults_const d]); both lemmas have
+   the additional hypothesis (r = R_VariablesInAllowedPosition -> defaults_const d = true), i.e.
+   nothing is added for the other 22 rules.  (Unlike for C01, no counterexample is known for the
+   statement without it: the model sees more variable usages than the specification, not fewer.) *)
 From GT Require Import Visitor Validate.
 From GTS Require Import Annot WfSchema SpecRules SpecValid.
-From GTP Require Import PlanFacts ComposeFacts C03_proofs.
+From GTP Require Import PlanFacts ComposeFacts C03_proofs C07_position_proofs C01_proofs.
 
-(* ---------------------------------------------------------------- (a) from the pending lemma *)
-Lemma violation_rejected_from_viap : viap_statement -> forall s d r,
+Lemma violation_rejected : forall s d r,
   wf_schema s = true -> doc_types_proper d = true ->
   r <> R_OverlappingFieldsCanBeMerged -> violated r s d = true ->
+  (r = R_VariablesInAllowedPosition -> defaults_const d = true) ->
   validate s d default_plan <> Ok [].
-Proof. intro H. exact (violation_rejected_sec H). Qed.
+Proof. exact (violation_rejected_sec viap_statement_holds). Qed.
 
-Lemma violation_rejected_errors_from_viap : viap_statement -> forall s d r,
+Lemma violation_rejected_errors : forall s d r,
   wf_schema s = true -> doc_types_proper d = true ->
   r <> R_OverlappingFieldsCanBeMerged -> violated r s d = true ->
+  (r = R_VariablesInAllowedPosition -> defaults_const d = true) ->
   r_oof (snd (run_rule R_OverlappingFieldsCanBeMerged s d ctx0)) = false ->
   exists es, validate s d default_plan = Ok es /\ es <> [].
-Proof. intro H. exact (violation_rejected_errors_sec H no_fuel_exhaustion). Qed.
-
-(* ---------------------------------------------------------------- (b) closed, without it *)
-Lemma violation_rejected_partial : forall s d r,
-  wf_schema s = true -> doc_types_proper d = true ->
-  r <> R_OverlappingFieldsCanBeMerged -> r <> R_VariablesInAllowedPosition ->
-  violated r s d = true ->
-  validate s d default_plan <> Ok [].
-Proof. exact violation_rejected_noviap. Qed.
-
-Lemma violation_rejected_errors_partial : forall s d r,
-  wf_schema s = true -> doc_types_proper d = true ->
-  r <> R_OverlappingFieldsCanBeMerged -> r <> R_VariablesInAllowedPosition ->
-  violated r s d = true ->
-  r_oof (snd (run_rule R_OverlappingFieldsCanBeMerged s d ctx0)) = false ->
-  exists es, validate s d default_plan = Ok es /\ es <> [].
-Proof.
-  intros s d r Hwf Hp H1 H2 Hv Hm.
-  apply (violation_rejected_errors_noviap s d r); try assumption.
-  intro r0. destruct (known_full r0) eqn:Ek.
-  - apply no_fuel_exhaustion, known_full_true, Ek.
-  - rewrite (known_full_false r0 Ek). exact Hm.
-Qed.
+Proof. exact (violation_rejected_errors_sec viap_statement_holds fuel_statement_holds). Qed.
